@@ -196,6 +196,12 @@ theorem pwb_layout_history :
 theorem pwb_layout_simulation :
     genMap pwbTables pwbArms Spec.pwbLayout simulationRun = Spec.pwbLayout.at simulationRun := by decide
 
+/-- The PadWing layout of runs from 10418 on is the layout of runs from 4418 on with exactly the
+eight documented board replacements (each position held the documented old board). -/
+theorem pwb_swaps_10418 :
+    ∃ t1 t2, layoutAt 4418 = some t1 ∧ layoutAt 10418 = some t2 ∧ applySwaps t1 pwbSwaps10418 = some t2 :=
+  ⟨_, _, rfl, rfl, by decide⟩
+
 /-- Non-vacuity: the record distinguishes runs on both sides of a documented boundary. -/
 example : Spec.wireGain.at 11083 = .file "9277_complete.json" ∧ Spec.wireGain.at 11084 = .file "11186_complete.json"
     ∧ Spec.wireGain.at 9276 = .err ∧ Spec.pwbLayout.at 10417 = .layout 0 ∧ Spec.pwbLayout.at 10418 = .layout 1 := by
